@@ -48,8 +48,9 @@ CHECKS = {
     "C08": dict(level="exploration", jobs=[J("TestC08Windows", (4, 1200), (16, 15000), timeout=(900, 5400)), J("TestC08Stress", (4, 3), (16, 10), race=True, kind="plain", timeout=(900, 5400)),
                                                  J("TestC08Windows", (4, 300), (16, 4000), race=True, env={"VF_TIMED": "1"}, timeout=(900, 5400)),
                                                  J("TestC08Duets", (4, 0), (12, 0), race=True, kind="plain", timeout=(900, 5400)),
-                                                 J("TestC08BigAppends", (4, 0), (8, 0), kind="plain", timeout=(600, 1800))],
-                rule="windows job: one evaluation = one owned schedule: a generated sequential prefix (publish/delete/GC on a small-rollover log), then call A (Publish with/without rollover, Delete on head/reader segment, a read, GC) held at the k-th occurrence of one of 11 pause points while up to two further complete calls (any of Publish, Consume, ConsumeByKey, Get, GetByKey, GetByTime, Delete, NextOffset, Sync, GC, Stat) are issued, then A is released; oracle = brute-force linearization of the <=3 calls (some order consistent with real time replays on the reference model with every observed result admissible, no error the sequential contract does not allow); non-trivial = the armed point was actually reached; distinct by (point, call kinds, occurrence, case hash). stress job (built with -race): one evaluation = one API call inside a seeded free-running mix (1-3 publishers, 1-2 deleters aimed at the head, 1-3 cursor readers doing all read calls, GC/Stat/Sync) with timed sleeps at the pause points; oracle = Go race detector + history invariants (disjoint dense offset ranges, content never changes, nothing disappears or is stepped over unless a Delete reported it, no call fails because of concurrent activity, final content == published minus reported deleted); non-trivial round = at least one rollover and one delete of the newest message. Half of the window cases are focused templates (delete in the writing segment while a publish rolls it over, publish vs delete/GC/Stat/Sync, GC vs reads and deletes in the unloaded segment). A duets job (-race) runs 12 pairs of call kinds x KeepRewriteVersion on/off with only two goroutines, because in the full mix the detector's 4-entry access history of a hot address is usually overwritten by properly locked readers before the racy access happens. The windows job also runs on the -race binary in timed mode (A is held by a sleep instead of a channel, so the detector sees the other calls as concurrent with the rest of A). Further window features: A may be held at a file-system step, a deadlock is reported when all unreturned calls are parked in a mutex wait in one stop-the-world goroutine snapshot (never on elapsed time), one or two sequential calls may follow the window before the observation, cases with Rollover equal to the head's size. Duets job (-race): two goroutines, 14 pairs of call kinds. BigAppends job (plain binary): records of 3000-70000 bytes appended against Delete/Consume/lookups of the head",
+                                                 J("TestC08BigAppends", (4, 0), (8, 0), kind="plain", timeout=(600, 1800)),
+                                                 J("TestC08TailRace", (4, 0), (8, 0), kind="plain", timeout=(600, 1800))],
+                rule="windows job: one evaluation = one owned schedule: a generated sequential prefix (publish/delete/GC on a small-rollover log), then call A (Publish with/without rollover, Delete on head/reader segment, a read, GC) held at the k-th occurrence of one of 11 pause points while up to two further complete calls (any of Publish, Consume, ConsumeByKey, Get, GetByKey, GetByTime, Delete, NextOffset, Sync, GC, Stat) are issued, then A is released; oracle = brute-force linearization of the <=3 calls (some order consistent with real time replays on the reference model with every observed result admissible, no error the sequential contract does not allow); non-trivial = the armed point was actually reached; distinct by (point, call kinds, occurrence, case hash). stress job (built with -race): one evaluation = one API call inside a seeded free-running mix (1-3 publishers, 1-2 deleters aimed at the head, 1-3 cursor readers doing all read calls, GC/Stat/Sync) with timed sleeps at the pause points; oracle = Go race detector + history invariants (disjoint dense offset ranges, content never changes, nothing disappears or is stepped over unless a Delete reported it, no call fails because of concurrent activity, final content == published minus reported deleted); non-trivial round = at least one rollover and one delete of the newest message. Half of the window cases are focused templates (delete in the writing segment while a publish rolls it over, publish vs delete/GC/Stat/Sync, GC vs reads and deletes in the unloaded segment). A duets job (-race) runs 12 pairs of call kinds x KeepRewriteVersion on/off with only two goroutines, because in the full mix the detector's 4-entry access history of a hot address is usually overwritten by properly locked readers before the racy access happens. The windows job also runs on the -race binary in timed mode (A is held by a sleep instead of a channel, so the detector sees the other calls as concurrent with the rest of A). Further window features: A may be held at a file-system step, a deadlock is reported when all unreturned calls are parked in a mutex wait in one stop-the-world goroutine snapshot (never on elapsed time), one or two sequential calls may follow the window before the observation, cases with Rollover equal to the head's size. Duets job (-race): two goroutines, 14 pairs of call kinds. BigAppends job (plain binary): records of 3000-70000 bytes appended against Delete/Consume/lookups of the head. TailRace job (plain binary, full speed, no deletes): Get/Consume/GetByKey/NextOffset at the offset that is being assigned and Consume(OffsetOldest) on a fresh or just-emptied log against a publisher, 800 (thorough 8000) fresh logs per shard; every read has exactly two admissible answers",
                 level_note="interleavings reachable through the listed pause points plus what the seeded stress happens to hit; the race detector only reports races that execute; free-running runs are not reproducible by construction (their replay file is the recorded history / race report)"),
     "C09": dict(level="exploration", jobs=[J("TestC09", (4, 500), (16, 5000), steps=40)],
                 rule="one case = one history over a key universe with nil, empty, prefix-related keys and three real FNV-1a-64 collision pairs; after every step GetByKey/OffsetByKey/ConsumeByKey (iteration and every cursor offset) for every key incl. absent ones; non-trivial = a lookup ran while a different key with the same hash was live; distinct by trace hash. Dimensions drawn per case or step in every history job: index configuration; rollover size (incl. exactly the head's size, +-1); NewSegmentsVersion/KeepRewriteVersion/EagerVersionMigrate/Check/Recover/AutoSync re-drawn at every open; index files removed and segment files replaced by symbolic links while closed; directory name (glob/shell characters) and spelling; message times monotone / arbitrary / zero (stamped by the log) / far future / with nanoseconds and a zone / before 1970; keys incl. nil, empty, hash collisions and keys of 300, 5000 and 70000 bytes; values up to 70 KB; a rejected (too big) message at a drawn position of a batch; offsets and bounds up to MaxInt64; nil map/slice; Multi calls with the library's back-off or one that fails / cancels; the invariant after every step or only every n-th (lazy state); read-only sessions incl. GC; a missing key/value is handed out the same way (nil or empty) every time"),
@@ -68,8 +69,8 @@ CHECKS = {
     "C07": dict(level="fault_enumeration", jobs=[J("TestC07", (4, 25), (16, 60)), J("FuzzRecoverBytes", (0, 0), (1, 60), kind="fuzz")],
                 rule="one evaluation = one damaged head segment: a segment of 1..6 generated messages (four index configurations, V2; V1 for truncation only) written by the repository's writers, then EVERY truncation length (0, >=8), every byte position after the header (quick: one bit + 0x00 + 0xFF; thorough: all 8 bits), zero/0xFF/pattern tails of every length up to two records, and every index damage (missing, every truncation, every byte, extra items, other layout/container); oracle = independent reference parser (longest valid prefix, derived index); non-trivial = valid prefix is proper and non-empty, or only the index is damaged; distinct by (segment hash, damage). Every 6th (thorough: 2nd) log damage is also tried with the index missing and with an index without items; damage that recomputes the checksum of the record it hits (forged trailer / forged value)",
                 exhaustive_note="per generated segment the enumerated damage space is complete (thorough) / complete for truncations and index damage, sampled bits for byte corruption (quick)"),
-    "C13": dict(level="exploration", jobs=[J("TestC13Codec", (4, 15000), (16, 150000)), J("TestC13Hist", (2, 800), (8, 6000), steps=40), J("FuzzParseDifferential", (0, 0), (1, 60), kind="fuzz"), J("TestC13Boundary", (1, 0), (1, 0), kind="plain")],
-                rule="codec job: one case = up to 5 generated messages (key/value 0..300 B plus 4 KiB/70 KiB, times over the whole int64 microsecond range, offsets up to MaxInt64) x V1/V2 x file/mmap reader x four index layouts x both index containers: writer bytes == independent encoder for log and index, reported positions, Size, readers on independently encoded files, parser agreement on a damaged copy; history job: Stat and Log.Size against os.Stat after every step; non-trivial codec case = >=2 records or an empty key/value or a boundary time; history case = multi-segment with deletes; distinct by case hash. History job also checks at every close that index timestamps are a running maximum of the message times in the file from one carried value (any times). Boundary job: fixed enumeration of the largest accepted message sizes (64 MiB and neighbours) through both readers and through Publish/Consume/reopen with Recover/Check. Codec damage includes changes that recompute the record checksum; the fuzz target compares each input also with all frame checksums recomputed"),
+    "C13": dict(level="exploration", jobs=[J("TestC13Codec", (4, 15000), (16, 150000)), J("TestC13Hist", (2, 800), (8, 6000), steps=40), J("FuzzParseDifferential", (0, 0), (1, 60), kind="fuzz"), J("TestC13Boundary", (1, 0), (1, 0), kind="plain"), J("TestC13IndexSizes", (1, 0), (1, 0), kind="plain")],
+                rule="codec job: one case = up to 5 generated messages (key/value 0..300 B plus 4 KiB/70 KiB, times over the whole int64 microsecond range, offsets up to MaxInt64) x V1/V2 x file/mmap reader x four index layouts x both index containers: writer bytes == independent encoder for log and index, reported positions, Size, readers on independently encoded files, parser agreement on a damaged copy; history job: Stat and Log.Size against os.Stat after every step; non-trivial codec case = >=2 records or an empty key/value or a boundary time; history case = multi-segment with deletes; distinct by case hash. History job also checks at every close that index timestamps are a running maximum of the message times in the file from one carried value (any times). Boundary job: fixed enumeration of the largest accepted message sizes (64 MiB and neighbours) through both readers and through Publish/Consume/reopen with Recover/Check. Index-size job: fixed enumeration of index files of 4 KiB, 64 KiB, 256 KiB (thorough: 1 MiB) +- a few items in all four layouts and both containers read back item for item, and a segment of 11000 messages reopened with and without its index file. Codec damage includes changes that recompute the record checksum; the fuzz target compares each input also with all frame checksums recomputed"),
     "C14": dict(level="fault_enumeration", jobs=[J("TestC14", (4, 40), (16, 20)), J("FuzzDamageRead", (0, 0), (1, 90), kind="fuzz")],
                 rule="one evaluation = one damage of one .log file of a generated multi-segment V2 log (4..14 messages, deletes, index files intact): bit flip, 1-8 byte overwrite, truncation, zero-filled tail (quick: one position per record field + length-field high bits + 5 cut points per record; thorough: every position, all bits), then a fresh Open and Get/Consume at every offset, GetByKey/ConsumeByKey for every key, GetByTime at every microsecond, each compared with the same call on the undamaged copy and the model (safety, must-fail, unchanged, no panic, <=256 MiB per call); non-trivial = damage inside a record; distinct by (log hash, damage, field hit, segment role). Thorough adds a 90 s coverage-guided campaign (FuzzDamageRead: log x segment x position x 1-8 bytes) under the same oracle. A quarter of the in-place overwrites are applied under an open handle that has already read every record; after a third of the overwrites an undamaged offset of the damaged segment is deleted and everything re-read"),
     "C18": dict(level="exploration", jobs=[J("TestC18", (4, 10000), (16, 100000)), J("TestC18Exhaustive", (3, 0), (8, 0), kind="plain", timeout=(900, 5400)), J("TestC18Free", (2, 300), (8, 3000))],
